@@ -1,4 +1,5 @@
 import PkgProofs.Lemmas.ReqLayout
+import PkgProofs.Lemmas.ReqSSet
 /-!
 # C08 — Requirement parsing decomposes PEP 508 strings faithfully
 
@@ -250,6 +251,17 @@ theorem requirement_roundtrip (src : Str) (r : Requirement) (h : Req.parse src =
   rw [hspec] at hsp
   obtain ⟨_, c, _, hp⟩ := members_roundtrip _ _ hs sp hsp
   exact ⟨ReqClause.ver_chars_of_parse c sp hp, ReqClause.tokExact_of_parse c sp hp⟩
+
+/-! ### 10. `Requirement.specifier` is the `SpecifierSet` of the clause text -/
+
+/-- **the specifier set a requirement holds is `SpecifierSet(clause text)` of the SpecifierSet model** (C05/C06):
+same members, no `prereleases` override anywhere; `InvalidSpecifier` becomes `InvalidRequirement` -/
+theorem specifier_is_specifierset (s : Str) :
+    (match SSet.ofString s none with
+     | .ok T => mkSpecSet s = .ok (T.specs.map (·.1)) ∧ T.pre = none ∧ ∀ m ∈ T.specs, m.2 = none
+     | .error e => (e = "InvalidSpecifier" ∧ mkSpecSet s = .error .invalidRequirement) ∨
+                   (e = "InvalidVersion" ∧ mkSpecSet s = .error .rawInvalidVersion)) :=
+  ReqSSet.mkSpecSet_eq_sset s
 
 /-! ### 9. Any white-space layout (the stretch goal) -/
 
